@@ -15,7 +15,7 @@
                          (K35: the last 719468 values of time_point<days,int64>; days + 719468 overflows) *)
 From BS Require Import Base ChronoSpec ChronoModel ChronoArith ChronoDecimal ChronoSweep ChronoCalendar ChronoYear
   ChronoSafe ChronoSafeAdd ChronoText ChronoTp ChronoTpParse ChronoTpRt ChronoTs ChronoRefute
-  ChronoDur ChronoDurPrint ChronoDurParse ChronoDurRt ChronoProps.
+  ChronoDur ChronoDurPrint ChronoDurParse ChronoDurRt ChronoDurDenote ChronoDurU64 ChronoWide ChronoProps.
 Local Open Scope Z_scope.
 
 (* ---- calendar: anchor + successor law over all of Z (Hinnant's civil_from_days, truncating division) ---- *)
@@ -148,6 +148,29 @@ Theorem T_C14_duration_text : forall P R c, rep2 R -> fits R c = true -> c <> 0 
 Proof. exact dur_print_ok. Qed.
 Print Assumptions T_C14_duration_text.
 
+(* the grammar half: the printed text is df_render f for a field record f of the specification's ISO-8601 duration
+   grammar ([+-]P[nW][nD][T[nH][nM][n[(.|,)f]S]], df_wf f), and f denotes exactly the printed count:
+   sign * (df_secs f seconds + df_fns f nanoseconds) = count * tick — nothing rounded, nothing dropped *)
+Theorem T_C14_duration_denotes : forall P R c, rep2 R -> fits R c = true ->
+  exists f, df_wf f /\ dur_print P R c = Ok (df_render f) /\ df_value_ns f = c * tick_ns P.
+Proof. exact dur_print_denotes. Qed.
+Print Assumptions T_C14_duration_denotes.
+
+Theorem T_C14_duration_grammar : forall P R c, rep2 R -> fits R c = true ->
+  exists text, dur_print P R c = Ok text /\ dur_grammar text /\ dur_denotes text (c * tick_ns P).
+Proof. exact dur_print_grammar. Qed.
+Print Assumptions T_C14_duration_grammar.
+
+(* uint64 durations.  The library prints them for periods of seconds and coarser only (the sub-second printer does not
+   compile for an unsigned count); for those four precisions and every count 0..2^64-1: the printed text is df_render f
+   of a well-formed record without sign, f denotes exactly the count, and the text parses back to the identical count
+   (time points with an unsigned count cannot be printed at all: the library does not compile) *)
+Theorem T_C14_duration_u64 : forall P c, sub_second P = false -> fits U64 c = true ->
+  exists f, df_wf f /\ df_neg f = false /\ dur_print P U64 c = Ok (df_render f) /\
+            df_value_ns f = c * tick_ns P /\ dur_parse P U64 (df_render f) = Ok c.
+Proof. exact dur_u64. Qed.
+Print Assumptions T_C14_duration_u64.
+
 Example T_C14_duration_example :
   dur_print Pms I64 (-93784005) = Ok [45;80;49;68;84;50;72;51;77;52;46;48;48;53;83]%N /\ dur_parse Pms I64 [45;80;49;68;84;50;72;51;77;52;46;48;48;53;83]%N = Ok (-93784005) /\
   dur_print Pns I64 (-9223372036854775808) = Ok [45;80;49;48;54;55;53;49;68;84;50;51;72;52;55;77;49;54;46;56;53;52;55;55;53;56;48;56;83]%N /\
@@ -155,21 +178,38 @@ Example T_C14_duration_example :
 Proof. exact c14_duration_example. Qed.
 Print Assumptions T_C14_duration_example.
 
+(* ---- struct tm and CRawTime.  The library takes the six tm fields as calendar values as they are (tm_year is the
+        year, tm_mon the month 1..12 — its own convention, cf. the unit tests), no calendar arithmetic involved.
+        For fields that form a calendar date-time with an int year: the ISO text of exactly these fields, and it
+        parses back to them.  For ANY six values: the text or the "insufficient buffer" runtime_error, never a
+        write outside the 48-byte buffer.  CRawTime is time_point<seconds, time_t>: all of int64, no open class. ---- *)
+Theorem T_C14_tm_roundtrip : forall y mo d h mi s, fits I32 y = true -> valid_date (y, mo, d) ->
+  0 <= h <= 23 -> 0 <= mi <= 59 -> 0 <= s <= 59 ->
+  tm_print y mo d h mi s = Ok (iso_text Ps (mkDT y mo d h mi s 0)) /\
+  tm_parse (iso_text Ps (mkDT y mo d h mi s 0)) = Ok (y, mo, d, h, mi, s).
+Proof. exact tm_roundtrip. Qed.
+Print Assumptions T_C14_tm_roundtrip.
+
+Theorem T_C14_tm_print_total : forall y mo d h mi s,
+  tm_print y mo d h mi s = Err RuntimeError \/ exists text, tm_print y mo d h mi s = Ok text.
+Proof. exact tm_print_total. Qed.
+Print Assumptions T_C14_tm_print_total.
+
+Theorem T_C14_raw_time : forall c, fits I64 c = true ->
+  rt_print c = Ok (iso_text Ps (spec_datetime Ps c)) /\ rt_parse (iso_text Ps (spec_datetime Ps c)) = Ok c.
+Proof. exact rt_roundtrip. Qed.
+Print Assumptions T_C14_raw_time.
+
 (* ======================================================================================================
    NOT PROVED (kept here at full strength; nothing below is claimed by the obligations above)
 
-   T_C14_duration, grammar half:  the text of T_C14_duration_text is df_render f for a dur_fields f of the
-     specification with df_wf f and df_value_ns f = d * tick_ns P  (i.e. the printed text lies in the documented
-     grammar and DENOTES the duration in the sense of ChronoSpec.dur_denotes).  What is proved instead:
-     T_C14_duration_text (the exact printed form in terms of the quotients / remainders of the count) and
-     T_C14_duration (the library's own parser reads it back to the identical count); the link from that
-     explicit form to the spec's dur_fields record is not done.  uint64 durations (printable only for
-     seconds and coarser) are not covered.
+   T_C14_duration, grammar half: proved (T_C14_duration_denotes / T_C14_duration_grammar).
 
    Representation domains not covered by the theorems above:
-     - int8_t representations (K48), time_t through CRawTime (it is time_point<seconds,int64>, covered as
-       (Ps, I64)), struct tm, and char16_t / char32_t input (narrowing by Utf8::Encode; properties C11/C12):
-       correspondence only.
+     - int8_t representations (K48): correspondence only.  (uint64 durations: T_C14_duration_u64; unsigned time
+       points do not compile in the library.)
+     - char16_t / char32_t OUTPUT strings (out.append(buf, pos) of the ASCII buffer) are not modelled; wide INPUT is
+       Properties_C15 (T_C15_wide_exact and the three theorems after it).
      - T_C14_bin_ts composes with the MsgPack wire form proved in the MsgPack family (C06/C07); the
        composition itself is not stated here.
    ====================================================================================================== *)
